@@ -13,7 +13,8 @@ namespace Incan.Newtype
 /-- Syntactic types as written in the source (`ast::Type`, the part the selection looks at). -/
 inductive Ty where
   | simple (n : String)
-  | generic (n : String) (first : Option Ty)   -- only the first type argument is inspected
+  | generic1 (n : String) (a : Ty)             -- `List[int]`, `Option[T]`
+  | generic2 (n : String) (a b : Ty)           -- `Result[T, E]`, `Dict[K, V]`
 deriving Repr, DecidableEq
 
 structure Method where
@@ -31,7 +32,8 @@ deriving Repr
 
 def isResultOf (ty : Ty) (newtype : String) : Bool :=
   match ty with
-  | .generic n (some (.simple t)) => n == "Result" && t == newtype
+  | .generic2 n (.simple t) _ => n == "Result" && t == newtype
+  | .generic1 n (.simple t) => n == "Result" && t == newtype   -- `args.is_empty()` is the only arity check
   | _ => false
 
 def isCandidate (d : Decl) (m : Method) : Bool :=
